@@ -1371,6 +1371,12 @@ pub fn systematic(
   cap: usize,
   oracle: &dyn Fn(&Outcome, &Scen) -> Option<(String, serde_json::Value)>,
 ) -> (usize, usize) {
+  // replaying one case: only the scenario that case belongs to is explored
+  if let Some(c) = &cfg.only_case {
+    if !c.starts_with(&format!("{}:", id_prefix)) {
+      return (0, 0);
+    }
+  }
   let n = s.threads.len() + s.workers;
   let mut seen: std::collections::HashSet<Vec<u8>> = Default::default();
   let mut stack: Vec<Vec<(u64, usize)>> = vec![vec![]];
